@@ -186,6 +186,25 @@ theorem C11_dryrun (store : Store) (pol : Policy) (now : Int) :
   unfold run
   simp
 
+/-- **C11_dry_gate.** On the HTTP path the field that makes a request a dry run is the request's own
+`dry_run` (generated from `handleExecute`). -/
+theorem C11_dry_gate : Arc.Generated.C11.dryGate = .reqDryRun := by decide
+
+/-- **C11_dry_flag_inert.** Any execute request that carries `dry_run = true` deletes nothing —
+whatever `confirm` says — and reports what the confirmed real run at the same instant reports. -/
+theorem C11_dry_flag_inert (confirm : Bool) (store : Store) (pol : Policy) (now : Int) :
+    (execHttp Arc.Generated.C11.dryGate srcCfg true confirm store pol now).1 = store ∧
+    (execHttp Arc.Generated.C11.dryGate srcCfg true confirm store pol now).2 =
+      some (run srcCfg false store pol now).2 := by
+  rw [C11_dry_gate]
+  simp [execHttp, (C11_dryrun store pol now).1, (C11_dryrun store pol now).2]
+
+/-- **C11_unconfirmed_inert.** Without `dry_run` and without `confirm` nothing happens at all. -/
+theorem C11_unconfirmed_inert (store : Store) (pol : Policy) (now : Int) :
+    execHttp Arc.Generated.C11.dryGate srcCfg false false store pol now = (store, none) := by
+  rw [C11_dry_gate]
+  simp [execHttp]
+
 theorem filter_partition_length {α : Type} (p : α → Bool) (l : List α) :
     (l.filter p).length + (l.filter (fun x => !p x)).length = l.length := by
   induction l with
